@@ -1004,6 +1004,14 @@ theorem buckets_find_eq_lookup (les : List LE) (hn : KeysNodup les) (le : LE) (h
     -- two records of `les` with the same (dev, ino) are the same record
     exact eq_of_keysNodup les hn y le hy' hm hk
 
+/-- Any history of insertions and unlinkings on the bucket table (records leave their chain when a group
+completes or is drained): each record still in the table is reached by the `find_entry` walk for its own key. -/
+theorem buckets_history_reachable (ops : List (LnkHash.BOp LE)) (le : LE)
+    (hm : le ∈ (LnkHash.runB bucketsInit leHash ops).flat) :
+    ((LnkHash.runB bucketsInit leHash ops).find leHash (fun x => x.hasKey le.dev le.ino) (leHash le)).isSome
+      = true :=
+  LnkHash.runB_reachable bucketsInit leHash _ ops bucketsInit_wf le hm (by simp [LE.hasKey])
+
 /-- Non-vacuity (the growth case itself is exercised in `Lemmas/LnkHash.lean` on a 2-bucket table): three
 records with negative and large keys in the initial table, the middle one is found. -/
 example : (LnkHash.insertAll bucketsInit leHash
